@@ -35,7 +35,13 @@ var (
 	callCtr int64
 	plan    string // key that must fail in the current call ("" = none)
 	errCtr  int64
+	callEvs int64 // events of the current call (runaway guard)
 )
+
+// maxCallEvents bounds the events one injector call may produce: generated code that recurses
+// without end (a cleanup that calls itself) is cut off here and recorded as a panic of that call
+// instead of filling the disk until the stack overflows.
+const maxCallEvents = 200000
 
 // New returns a fresh identity.
 func New() ID {
@@ -79,6 +85,10 @@ func emit(ev map[string]interface{}) {
 	}
 	if curCall != 0 {
 		ev["call"] = curCall
+		callEvs++
+		if callEvs == maxCallEvents+1 {
+			panic("tr: runaway injector call: more than 200000 events (endless recursion in generated code?)")
+		}
 	}
 	if out == nil {
 		pending = append(pending, ev)
@@ -461,6 +471,7 @@ func runCall(prog, inj, p string, body func(c *Call)) {
 	curCall = callCtr
 	curProg = prog
 	plan = p
+	callEvs = 0
 	mu.Unlock()
 	c := &Call{Inj: inj, Plan: p}
 	emit(map[string]interface{}{"ev": "call_begin", "inj": inj, "plan": p})
